@@ -59,7 +59,9 @@ pub fn cancel_outcome(c: &CancelCase) -> Outcome {
             let n_peers = if kind == Kind::Req { 1 } else { c.peers.len().max(1) };
             for pi in 0..n_peers {
                 let l = sim.link();
-                l.raw_handshake(kind.a_compatible_peer(), None);
+                // every other case: the peers announce an empty Identity (libzmq's default), which
+                // must not make them share a registration
+                l.raw_handshake(kind.a_compatible_peer(), if c.ops.len() % 2 == 1 { Some(&[][..]) } else { None });
                 let a = sim.attach(s, &l);
                 match sim.run(a).await {
                     Ok(Some(Out::Attach(Ok(id)))) => ids.push(id),
